@@ -640,8 +640,43 @@ def r15(facts, res):
         res.ok(R, 'context-accumulates', loc_of(b, resets[0][0]), 'between its reset and its use the look-ahead set only grows (%d or/set sites, %d reset)' % (len(grows), len(resets)))
 
 
+def r16(facts, res, R='R1.6'):
+    """`Itemset::add` reports whether the item set changed: true for a new item, and for an existing item exactly what merging
+    the context into it reports (`Vob::or` answers whether a bit was added).  The closure's work list and the pager's
+    re-processing both rely on that answer: an `add` that says "unchanged" for an item whose look-ahead grew never passes the
+    new look-aheads on to the items derived from it (seeded change C04-add-reports-no-change-on-growth - invisible for grammars
+    written top-down, the item is then still on the work list when it grows)."""
+    bs = [b for b in facts.lib_bodies(['lrtable']) if b.name == 'add' and b.kind != 'closure' and 'itemset::Itemset' in b.path]
+    if len(bs) != 1:
+        return res.lost(R, 'Itemset::add not found (%d)' % len(bs))
+    b = bs[0]
+    ps = [p for p in Walker(b, facts, max_paths=256).run() if p.end[0] == 'return']
+    if not ps:
+        return res.lost(R, 'Itemset::add: no returning path')
+    # Necessary condition only: an answer is either `true` (over-reporting costs work, not correctness) or carries what a
+    # context merge performed on that very path reported; `false`, or anything else, on any path is a change that can go unreported.
+    bad, ntrue, nmerge = [], 0, 0
+    for p in ps:
+        r = p.end[1]
+        ors = [e for e in p.calls() if (e[2] or {}).get('name') in ('or', 'bitor_assign', 'union')]
+        if r == ('const', 1):
+            ntrue += 1
+        elif any(term_has(r, lambda y, t=e[5]: y == t) for e in ors):
+            nmerge += 1
+        else:
+            bad.append('a path answers %s: neither true nor what a context merge on that path reported' % fmt_term(r)[:60])
+    key = 'add-reports-change'
+    if bad:
+        res.bad(R, key, loc_of(b), '; '.join(sorted(set(bad))[:2]) + ' - an item whose look-ahead grew is reported unchanged', {'function': b.path})
+    elif not nmerge:
+        res.bad(R, key, loc_of(b), 'no path merges the context into an existing item and answers with the merge\'s result', {'function': b.path})
+    else:
+        res.ok(R, key, loc_of(b), 'every answer is true (%d paths) or the answer of merging the context into the existing item (%d paths)' % (ntrue, nmerge))
+
+
 def run(facts, res):
     r15(facts, res)
+    r16(facts, res)
     r11(facts, res)
     r12(facts, res)
     r13(facts, res)
